@@ -173,12 +173,14 @@ def decl_at(relpath, line):
     return None
 
 
-def audit_axioms(module, names):
+def audit_axioms(module, names, extra_modules=()):
     """#print axioms for every name.  returns dict name -> list of axioms (None if unknown constant)"""
     os.makedirs(CACHE, exist_ok=True)
     f = os.path.join(CACHE, "audit_%s.lean" % module.replace(".", "_"))
     with open(f, "w") as fh:
         fh.write("import %s\n" % module)
+        for em in extra_modules:
+            fh.write("import %s\n" % em)
         for n in names:
             fh.write("#print axioms %s\n" % n)
     rc, out, _ = sh(["lake", "env", "lean", f], cwd=LEAN, timeout=900)
@@ -358,7 +360,7 @@ def finish(res, level, checker_cmd, extra_trusted=()):
     return rc
 
 
-def lean_phase(res, pid, gen_fn=None, extra_targets=(), thorough_modules=()):
+def lean_phase(res, pid, gen_fn=None, extra_targets=(), thorough_modules=(), extra_props=()):
     """steps 1-3 of DESIGN section 5 for Props/<pid>.lean. Must be called with the Lock held."""
     if gen_fn is not None:
         ok, msgs = gen_fn()
@@ -368,8 +370,12 @@ def lean_phase(res, pid, gen_fn=None, extra_targets=(), thorough_modules=()):
     module = "Cuckoo.Props." + pid
     rel = os.path.join("Cuckoo", "Props", pid + ".lean")
     names = theorems_in(rel)
+    extra_modules = []
+    for ep in extra_props:        # further property files of the same property (e.g. C01Conc)
+        names += theorems_in(os.path.join("Cuckoo", "Props", ep + ".lean"))
+        extra_modules.append("Cuckoo.Props." + ep)
     res.obligations = len(names)
-    ok, out, errors, dt = lake_build([module, "cuckoo-driver"] + list(extra_targets))
+    ok, out, errors, dt = lake_build([module, "cuckoo-driver"] + extra_modules + list(extra_targets))
     res.notes.append("lake build %s: %s in %.1fs" % (module, "ok" if ok else "FAILED", dt))
     if not ok:
         bad = set()
@@ -382,7 +388,7 @@ def lean_phase(res, pid, gen_fn=None, extra_targets=(), thorough_modules=()):
             res.add_broken("lean obligation " + b)
         res.discharged = 0
         return False, names
-    axioms, raw = audit_axioms(module, names)
+    axioms, raw = audit_axioms(module, names, extra_modules)
     good = 0
     for n in names:
         ax = axioms.get(n)
@@ -394,6 +400,8 @@ def lean_phase(res, pid, gen_fn=None, extra_targets=(), thorough_modules=()):
             good += 1
     res.discharged = good
     hits = forbidden_tokens(module)
+    for em in extra_modules:
+        hits += [h for h in forbidden_tokens(em) if h not in hits]
     if hits:
         res.add_broken("forbidden construct in Lean sources", "\n".join(hits[:20]))
     if res.tier == "thorough":
